@@ -40,6 +40,11 @@ pub enum Cause {
     TruncatedFirstChunk,
     EmptyInput,
     SmallOrderRecipient,
+    /// -o names a file inside a directory that does not exist / names an existing directory
+    OutputDirMissing,
+    OutputIsDirectory,
+    /// -k names a directory
+    KeyringIsDirectory,
     EmptyKeyName,
     LongKeyName,
     TabKeyName,
@@ -108,6 +113,16 @@ pub const PAIRS: &[(Cmd, Cause)] = &[
     (Cmd::PassDecrypt, Cause::EmptyInput),
     (Cmd::PassDecrypt, Cause::LaterChunkCorrupt(1)),
     (Cmd::PassDecrypt, Cause::LaterChunkTruncated(1)),
+    (Cmd::Encrypt, Cause::OutputDirMissing),
+    (Cmd::Encrypt, Cause::OutputIsDirectory),
+    (Cmd::Encrypt, Cause::KeyringIsDirectory),
+    (Cmd::Decrypt, Cause::OutputDirMissing),
+    (Cmd::Decrypt, Cause::OutputIsDirectory),
+    (Cmd::Decrypt, Cause::KeyringIsDirectory),
+    (Cmd::PassEncrypt, Cause::OutputDirMissing),
+    (Cmd::PassDecrypt, Cause::OutputIsDirectory),
+    (Cmd::KeyGenerate, Cause::OutputDirMissing),
+    (Cmd::KeyGenerate, Cause::OutputIsDirectory),
     (Cmd::KeyGenerate, Cause::BadArgs),
     (Cmd::KeyGenerate, Cause::EnvPassUnset),
     (Cmd::KeyGenerate, Cause::EmptyKeyName),
@@ -275,7 +290,19 @@ impl Family for B2 {
             w.names[1].clone()
         };
         let from = if s.cause == Cause::UnknownKeyName && !unknown_to { "nobody-at-all".to_string() } else { w.names[0].clone() };
-        let out_arg = if in_is_out { "input.bin" } else { out_name };
+        let out_arg = match s.cause {
+            _ if in_is_out => "input.bin",
+            Cause::OutputDirMissing => "no-such-dir/output.bin",
+            Cause::OutputIsDirectory => "a-directory",
+            _ => out_name,
+        };
+        if s.cause == Cause::OutputIsDirectory {
+            let _ = std::fs::create_dir(sb.dir.join("a-directory"));
+        }
+        if s.cause == Cause::KeyringIsDirectory {
+            let _ = std::fs::remove_file(sb.dir.join("keyring.txt"));
+            let _ = std::fs::create_dir(sb.dir.join("keyring.txt"));
+        }
         match s.cmd {
             Cmd::Encrypt => args.extend(["encrypt".into(), "input.bin".into(), "-t".into(), to, "-f".into(), from, "-o".into(), out_arg.into()]),
             Cmd::Decrypt => args.extend(["decrypt".into(), "input.bin".into(), "-t".into(), to, "-o".into(), out_arg.into()]),
